@@ -129,4 +129,25 @@ def updEnv (env : Env) (x : Expr) (v : Int) : Env :=
 
 def execStmt (env : Env) (s : Stmt) : Env := updEnv env (stmtTarget s) (execValue env s)
 
+/-- the monitors of executing one statement: evaluating the right-hand side trips
+none, the operator's own monitor holds, and the stored value fits the (refined) type
+of the destination -/
+def stmtSafe (env : Env) : Stmt → Prop
+  | .assign lhs rhs => safe env false rhs ∧ inType (typeOf lhs) (evalI env rhs)
+  | .opAssign op lhs rhs =>
+    safe env false rhs ∧ opMonitor op (opBase op lhs rhs) (evalI env lhs) (evalI env rhs) ∧
+      inType (typeOf lhs) (evalI env (.binary op lhs rhs))
+
+/-- `bcheckBlock` over a straight-line block of this layer -/
+def checkBlock (fs : List Expr) : List Stmt → Option (List Expr)
+  | [] => some fs
+  | s :: ss =>
+    match checkStmt fs s with
+    | none => none
+    | some fs1 => checkBlock fs1 ss
+
+def runBlock (env : Env) : List Stmt → Env
+  | [] => env
+  | s :: ss => runBlock (execStmt env s) ss
+
 end WuffsVerif.WCore
